@@ -140,6 +140,11 @@ func (t *fnTr) kindOfType(ty types.Type) string {
 		if n, ok := u.Elem().(*types.Named); ok && n.Obj().Pkg() != nil && n.Obj().Pkg().Path() == "encoding/xml" && n.Obj().Name() == "Decoder" {
 			return "xdecoder" // the tokens still to come and how the stream ends (state)
 		}
+		if n, ok := u.Elem().(*types.Named); ok && n.Obj().Pkg() != nil {
+			if full := n.Obj().Pkg().Path() + "." + n.Obj().Name(); full == "strings.Builder" || full == "bytes.Buffer" {
+				return "writer" // the bytes written so far (state); the Write methods of these two never fail
+			}
+		}
 		k := t.kindOfType(u.Elem())
 		if strings.HasPrefix(k, "rec:") {
 			return k
@@ -257,6 +262,8 @@ type fnTr struct {
 	fresh   int
 	pairMemo int // 0 unknown, 1 pair result, 2 not
 	curRest  []ast.Stmt // the statements that follow the one being translated, in its list
+	sumJoin  bool       // join mode (see branching): no duplication of what follows a branching statement
+	curS     string     // in join mode: the state type S of the `ctl S A` a jump currently produces
 	parents  map[ast.Node]ast.Node
 	tables  map[types.Object]string
 	externs *[]extern
@@ -268,6 +275,8 @@ type fnTr struct {
 	escaped map[types.Object]bool
 	state   []*lvar          // out-parameters (pointer / mutated map parameters) of a void function, in parameter order
 	stateAt map[int]*lvar    // parameter position -> state variable
+	structAt map[int]*lvar   // parameter position -> struct-pointer parameter (its fields are state)
+	retPat  string           // set by selfArgs: the pattern that receives the state a recursive call returns
 	self    *types.Func      // the function being translated (recursion)
 	recurs  bool
 }
@@ -406,8 +415,48 @@ func (t *fnTr) assertPat(ty types.Type, bind string) (pat string, kind string) {
 		return "VMap " + bind, k
 	case "vlist":
 		return "VList " + bind, k
+	case "int":
+		if b, ok := ty.Underlying().(*types.Basic); ok {
+			switch b.Kind() {
+			case types.Int:
+				return "VInt " + bind, k
+			case types.Int64:
+				return "VI64 " + bind, k
+			case types.Uint64:
+				return "VU64 " + bind, k
+			}
+		}
+	}
+	if n, ok := ty.(*types.Named); ok && n.Obj().Pkg() != nil && n.Obj().Pkg().Path() == "encoding/json" && n.Obj().Name() == "Number" {
+		return "VJNum " + bind, "str"
 	}
 	return "", ""
+}
+
+// outsideUniverse: a dynamic type no value of the model's universe (Base/Value.v: string, bool, nil, int, int64, uint64,
+// float64, json.Number, map[string]interface{}, []interface{}) has.  A type-switch alternative for such a type is dead
+// for the values the translation speaks about and is dropped (a comment in the output says so).
+func outsideUniverse(ty types.Type) bool {
+	switch u := ty.Underlying().(type) {
+	case *types.Basic:
+		switch u.Kind() {
+		case types.Int8, types.Int16, types.Int32, types.Uint, types.Uint8, types.Uint16, types.Uint32, types.Uintptr, types.Float32, types.Complex64, types.Complex128:
+			return true
+		}
+	case *types.Slice:
+		if it, ok := u.Elem().Underlying().(*types.Interface); ok && it.NumMethods() == 0 {
+			return false // []interface{}
+		}
+		return true // []byte, []string, []map[string]interface{}, ...
+	case *types.Map:
+		if kb, ok := u.Key().Underlying().(*types.Basic); ok && kb.Info()&types.IsString != 0 {
+			if it, ok := u.Elem().Underlying().(*types.Interface); ok && it.NumMethods() == 0 {
+				return false
+			}
+		}
+		return true
+	}
+	return false
 }
 
 // ---------------------------------------------------------------- expressions
@@ -565,6 +614,13 @@ func (t *fnTr) expr(e ast.Expr) string {
 				} else {
 					t.unsupported(e, "comparison of function / pointer values")
 				}
+			case "val":
+				// v == nil for an interface{} value: the nil interface (typed nils are outside the universe)
+				if t.p.info.Types[x.Y].IsNil() {
+					r = "(match " + t.expr(x.X) + " with VNil => true | _ => false end)"
+				} else {
+					t.unsupported(e, "comparison of interface{} values")
+				}
 			case "vmap", "vlist":
 				// a nil map / slice and an empty one are the same model value (the entry list []); a map variable
 				// declared nil carries a flag that says whether it has been made
@@ -631,6 +687,10 @@ func (t *fnTr) expr(e ast.Expr) string {
 			t.guards = append(t.guards, fmt.Sprintf("match nth_error %s (length %s - 1) with None => Crash | Some %s =>", base, base, n))
 			return n
 		}
+		if k == "vmap" {
+			// m[k] as a value: the entry, nil when there is none
+			return "(match lookup " + t.expr(x.Index) + " " + t.expr(x.X) + " with Some v_ => v_ | None => VNil end)"
+		}
 		if k != "bools" && k != "strs" && k != "vlist" && k != "str" && !strings.HasPrefix(k, "recs:") {
 			t.unsupported(e, "index expression")
 		}
@@ -664,7 +724,7 @@ func (t *fnTr) expr(e ast.Expr) string {
 				return "(firstn (Z.to_nat " + n + ") " + base + ")"
 			}
 		}
-		if kk := t.kindOfExpr(x.X); !x.Slice3 && (kk == "vlist" || kk == "strs" || strings.HasPrefix(kk, "recs:")) {
+		if kk := t.kindOfExpr(x.X); !x.Slice3 && (kk == "vlist" || kk == "strs" || kk == "str" || strings.HasPrefix(kk, "recs:")) {
 			_, loConst := int64(0), x.Low == nil
 			if x.Low != nil {
 				_, loConst = t.constInt(x.Low)
@@ -851,6 +911,9 @@ func (t *fnTr) call(x *ast.CallExpr) string {
 			return t.boxVal(x.Args[0])
 		case to == "vmap" && from == "vmap":
 			return t.expr(x.Args[0])
+		case to == "int" && from == "flt":
+			// int(f): truncation toward zero, on the %v text of the float (go_flt_to_int)
+			return "(go_flt_to_int " + t.expr(x.Args[0]) + ")"
 		}
 		t.unsupported(x, "conversion "+types.ExprString(x.Fun))
 	}
@@ -897,6 +960,17 @@ func (t *fnTr) call(x *ast.CallExpr) string {
 					if ok && n == 1 && t.kindOfExpr(x) == "str" {
 						return "[zero_byte]" // a one-byte buffer
 					}
+					if k := t.kindOfExpr(x); !ok && len(x.Args) == 2 && strings.HasPrefix(k, "recs:") && t.structs[k[5:]] != nil {
+						// make([]T, n) for a struct T of the package: n zero records
+						st := t.structs[k[5:]]
+						var zs []string
+						for i := 0; i < st.NumFields(); i++ {
+							zs = append(zs, fnZero(t.kindOfType(st.Field(i).Type())))
+						}
+						ln := t.expr(x.Args[1])
+						t.guards = append(t.guards, fmt.Sprintf("if Z.ltb %s 0 then Crash else", ln))
+						return "(repeat (mk_" + k[5:] + " " + strings.Join(zs, " ") + ") (Z.to_nat " + ln + "))"
+					}
 					if k := t.kindOfExpr(x); !ok && len(x.Args) == 2 && (k == "strs" || k == "vlist") {
 						// make([]T, n): n zero values; Go panics when n < 0
 						ln := t.expr(x.Args[1])
@@ -937,6 +1011,17 @@ func (t *fnTr) call(x *ast.CallExpr) string {
 			argInt(1, 0)
 			return "(flt_is_inf " + t.expr(x.Args[0]) + ")"
 		}
+		if full == "fmt.Sprintf" && len(x.Args) == 2 {
+			// fmt.Sprintf("%v", x) for an interface{} value: the text of a scalar of the universe; the %v text of maps and
+			// lists is not modelled (a Crash of the translation, which the theorems exclude)
+			if fv := t.p.info.Types[x.Args[0]].Value; fv != nil && fv.Kind() == constant.String && constant.StringVal(fv) == "%v" && t.kindOfExpr(x.Args[1]) == "val" {
+				v := t.expr(x.Args[1])
+				t.fresh++
+				n := fmt.Sprintf("fv%d", t.fresh)
+				t.guards = append(t.guards, "match "+v+" with VMap _ | VList _ => Crash | "+n+" =>")
+				return "(go_fmt_v " + n + ")"
+			}
+		}
 		if f, ok := callTable[full]; ok {
 			args := make([]string, len(x.Args))
 			for i, a := range x.Args {
@@ -971,7 +1056,42 @@ type extCall struct {
 	rich     string   // the Gallina pattern kind of R for a call with stateOut: "pair" (v, err) / "triple" / "res" / "one"
 }
 
+// envCalls: functions of the standard library that are part of the ENVIRONMENT of the translation (Section variables
+// like the package's own callees): argument kinds and the kind T of a (T, error) result.
+var envCalls = map[string]struct {
+	args []string
+	res  string
+}{
+	"encoding/xml.Marshal":       {[]string{"val"}, "str"},
+	"encoding/xml.MarshalIndent": {[]string{"val", "str", "str"}, "str"},
+}
+
 func (t *fnTr) externCall(x *ast.CallExpr) (*extCall, bool) {
+	if pkg, name, ok := t.pkgCall(x); ok {
+		if ev, isEnv := envCalls[pkg+"."+name]; isEnv && len(x.Args) == len(ev.args) {
+			ec := &extCall{results: []string{ev.res, "err"}}
+			var tys, args []string
+			for i, a := range x.Args {
+				tys = append(tys, fnCoqType(ev.args[i]))
+				if ev.args[i] == "val" {
+					args = append(args, t.boxVal(a))
+				} else {
+					args = append(args, t.expr(a))
+				}
+			}
+			nm := "ext_" + pkg[strings.LastIndex(pkg, "/")+1:] + "_" + name
+			typ := strings.Join(append(tys, "(res "+fnCoqType(ev.res)+")"), " -> ")
+			found := false
+			for _, e := range *t.externs {
+				found = found || e.name == nm
+			}
+			if !found {
+				*t.externs = append(*t.externs, extern{nm, typ})
+			}
+			ec.term = "(" + nm + " " + strings.Join(args, " ") + ")"
+			return ec, true
+		}
+	}
 	var callee types.Object
 	var recv ast.Expr
 	switch f := x.Fun.(type) {
@@ -1209,6 +1329,41 @@ func fallsThrough(list []ast.Stmt) bool {
 	return true
 }
 
+// jumpsOut: does the list contain a jump that leaves the statement whose body it is - a `continue` (of the enclosing
+// loop) or, for the body of an `if`, a `break` (of the enclosing switch / loop)?  Breaks inside a nested switch, and
+// everything inside a nested loop, stay inside.
+func jumpsOut(list []ast.Stmt, ofSwitch bool) bool {
+	found := false
+	var walk func(n ast.Node, inSwitch bool)
+	walk = func(n ast.Node, inSwitch bool) {
+		ast.Inspect(n, func(m ast.Node) bool {
+			switch x := m.(type) {
+			case *ast.BranchStmt:
+				if x.Tok == token.CONTINUE || (x.Tok == token.BREAK && !inSwitch) {
+					found = true
+				}
+			case *ast.ForStmt, *ast.RangeStmt:
+				return false
+			case *ast.SwitchStmt:
+				if m != n {
+					walk(x.Body, true)
+					return false
+				}
+			case *ast.TypeSwitchStmt:
+				if m != n {
+					walk(x.Body, true)
+					return false
+				}
+			}
+			return true
+		})
+	}
+	for _, st := range list {
+		walk(st, ofSwitch)
+	}
+	return found
+}
+
 // hasContinue: does the list contain a `continue` (of the enclosing loop)?
 func hasContinue(list []ast.Stmt) bool {
 	found := false
@@ -1294,6 +1449,9 @@ func (t *fnTr) assigned(list []ast.Stmt) []*lvar {
 				for _, l := range x.Lhs {
 					target(l, x.Tok == token.DEFINE)
 				}
+				if x.Tok == token.ADD_ASSIGN {
+					add(t.lvarOf(x.Lhs[0]))
+				}
 				if len(x.Rhs) == 1 {
 					if c, ok := x.Rhs[0].(*ast.CallExpr); ok {
 						if se, ok := c.Fun.(*ast.SelectorExpr); ok && se.Sel.Name == "Read" && len(c.Args) == 1 {
@@ -1319,6 +1477,15 @@ func (t *fnTr) assigned(list []ast.Stmt) []*lvar {
 							for _, sv := range t.state {
 								add(sv)
 							}
+							for _, a := range c.Args {
+								if id, ok := unparen(a).(*ast.Ident); ok {
+									if al, ok := t.locals[t.p.info.Uses[id]]; ok && al.fields != nil {
+										for _, fnm := range al.forder {
+											add(al.fields[fnm])
+										}
+									}
+								}
+							}
 						}
 					}
 				}
@@ -1332,8 +1499,31 @@ func (t *fnTr) assigned(list []ast.Stmt) []*lvar {
 					}
 				}
 			case *ast.IncDecStmt:
-				target(x.X, false)
+				if se, ok := x.X.(*ast.SelectorExpr); ok {
+					add(t.lvarOf(se))
+				} else {
+					target(x.X, false)
+				}
 			case *ast.ExprStmt:
+				if c, ok := x.X.(*ast.CallExpr); ok {
+					if pk, nm, isPkg := t.pkgCall(c); isPkg && pk == "sort" && nm == "Sort" && len(c.Args) == 1 {
+						if conv, isConv := c.Args[0].(*ast.CallExpr); isConv && len(conv.Args) == 1 {
+							add(t.lvarOf(conv.Args[0]))
+						}
+					}
+					if se, isSel := c.Fun.(*ast.SelectorExpr); isSel {
+						if wl := t.lvarOf(se.X); wl != nil && wl.kind == "writer" {
+							add(wl)
+						}
+						if rid, isId := se.X.(*ast.Ident); isId {
+							if rl, okL := t.locals[t.p.info.Uses[rid]]; okL && rl.fields != nil && strings.HasPrefix(rl.kind, "rec:") {
+								for _, fnm := range rl.forder {
+									add(rl.fields[fnm])
+								}
+							}
+						}
+					}
+				}
 				// a recursive call writes through every out-parameter
 				if c, ok := x.X.(*ast.CallExpr); ok && t.isSelfCall(c) {
 					for _, sv := range t.state {
@@ -1361,6 +1551,9 @@ func (t *fnTr) selfArgs(c *ast.CallExpr) []string {
 		t.unsupported(c, "recursive call form")
 	}
 	var args []string
+	// what comes back for every state variable of the function, in the order of t.state: by default the variable
+	// itself (passed through); for the fields of a struct-pointer parameter the fields of the struct local passed
+	back := map[*lvar]string{}
 	for i, a := range c.Args {
 		if sv, isState := t.stateAt[i]; isState {
 			if t.lvarOf(a) != sv {
@@ -1369,14 +1562,51 @@ func (t *fnTr) selfArgs(c *ast.CallExpr) []string {
 			args = append(args, sv.name)
 			continue
 		}
+		if sp, isStruct := t.structAt[i]; isStruct {
+			var al *lvar
+			if id, ok := unparen(a).(*ast.Ident); ok {
+				al = t.locals[t.p.info.Uses[id]]
+			}
+			if al == nil || al.fields == nil || al.kind != sp.kind {
+				t.unsupported(c, "recursive call whose struct-pointer argument is not a struct local of that type")
+			}
+			for _, fnm := range sp.forder {
+				af := al.fields[fnm]
+				if af == nil {
+					t.unsupported(c, "recursive call whose struct-pointer argument lacks a field")
+				}
+				args = append(args, af.name)
+				back[sp.fields[fnm]] = af.name
+			}
+			continue
+		}
 		if t.kindOfType(sig.Params().At(i).Type()) == "val" {
 			args = append(args, t.boxVal(a))
 		} else {
 			args = append(args, t.expr(a))
 		}
 	}
+	var pats []string
+	for _, sv := range t.state {
+		if b, ok := back[sv]; ok {
+			pats = append(pats, b)
+		} else {
+			pats = append(pats, sv.name)
+		}
+	}
+	switch len(pats) {
+	case 0:
+		t.retPat = "_"
+	case 1:
+		t.retPat = pats[0]
+	default:
+		t.retPat = "'(" + strings.Join(pats, ", ") + ")"
+	}
 	return args
 }
+
+// retState: retPat without the leading quote, for use inside a larger pattern
+func (t *fnTr) retState() string { return strings.TrimPrefix(t.retPat, "'") }
 
 func (t *fnTr) isSelfCall(c *ast.CallExpr) bool {
 	id, ok := c.Fun.(*ast.Ident)
@@ -1518,6 +1748,48 @@ func (t *fnTr) branching(s ast.Stmt, rest []ast.Stmt, end func() string, bodies 
 	}
 	if len(rest) == 0 {
 		return run(end)
+	}
+	if t.sumJoin {
+		// join mode for large functions: what follows the statement is translated ONCE.  A body ends normally (or by a
+		// `break` of this switch) with inl of the assigned locals; a jump that leaves the statement (`continue`, `break`
+		// of an enclosing loop / switch) ends it with inr of the jump's own result, which the join passes on.
+		leaves := false
+		var all []ast.Stmt
+		for _, b := range bodies {
+			leaves = leaves || jumpsOut(b, isSw || isTsw)
+			all = append(all, b...)
+		}
+		as := t.assigned(all)
+		if !leaves {
+			savedS := t.curS
+			t.curS = tupleType(as)
+			inner := run(func() string { return "Next " + tupleVal(as) })
+			t.curS = savedS
+			return "bindc (S := " + tupleType(as) + ") (" + inner + ")\n  (fun " + tuplePat(as) + " => " + t.stmts(rest, end) + ")"
+		}
+		outerS := t.curS
+		if outerS == "" {
+			t.unsupported(s, "a jump that leaves a branch outside any loop")
+		}
+		sumTy := "(" + tupleType(as) + " + ctl " + outerS + " " + t.resultType() + ")%type"
+		savedLoopEnd, savedBreak, savedS := t.loopEnd, t.breakEnd, t.curS
+		t.curS = sumTy
+		if savedLoopEnd != nil {
+			t.loopEnd = func() string { return "Next (inr (" + savedLoopEnd() + "))" }
+		}
+		if savedBreak != nil {
+			t.breakEnd = func() string { return "Next (inr (" + savedBreak() + "))" }
+		}
+		normal := func() string { return "Next (inl " + tupleVal(as) + ")" }
+		inner := mk(func(b []ast.Stmt) string {
+			if isSw || isTsw {
+				t.breakEnd = normal // `break` inside a case leaves the switch only
+			}
+			return t.stmts(b, normal)
+		})
+		t.loopEnd, t.breakEnd, t.curS = savedLoopEnd, savedBreak, savedS
+		pat := tuplePat(as)
+		return "bindc (S := " + sumTy + ") (" + inner + ")\n  (fun x_ => match x_ with inl " + strings.TrimPrefix(pat, "'") + " => " + t.stmts(rest, end) + " | inr j_ => j_ end)"
 	}
 	// a `continue` inside a body leaves the join: translate what follows into every body that falls through instead
 	for _, b := range bodies {
@@ -1724,6 +1996,12 @@ func (t *fnTr) retExpr(x *ast.ReturnStmt) string {
 	switch {
 	case len(t.resKind) == 0 && len(x.Results) == 0 && len(t.state) > 0:
 		return "Ret " + tupleVal(t.state)
+	case len(t.resKind) == 1 && len(x.Results) == 1 && t.resKind[0] == "err":
+		e, ok := t.errExpr(x.Results[0])
+		if !ok {
+			t.unsupported(x, "error result of this form")
+		}
+		return "Ret " + t.withState(e)
 	case len(t.resKind) == 1 && len(x.Results) == 1:
 		mark := len(t.guards)
 		var v string
@@ -1824,6 +2102,15 @@ func (t *fnTr) stmts(list []ast.Stmt, end func() string) string {
 		if st, ok := tx.(*ast.StarExpr); ok {
 			tx = st.X
 		}
+		if se, isSel := tx.(*ast.SelectorExpr); isSel && tx == x.X {
+			if fl := t.lvarOf(se); fl != nil && fl.kind == "int" {
+				op := "+"
+				if x.Tok == token.DEC {
+					op = "-"
+				}
+				return "let " + fl.name + " := (" + fl.name + " " + op + " 1)%Z in\n  " + next()
+			}
+		}
 		id, ok := tx.(*ast.Ident)
 		if !ok {
 			t.unsupported(s, "inc/dec target")
@@ -1855,7 +2142,7 @@ func (t *fnTr) stmts(list []ast.Stmt, end func() string) string {
 		if x.Init != nil {
 			// the init statement scopes over the if only; names are unique per object, so a plain sequence is faithful
 			as, ok := x.Init.(*ast.AssignStmt)
-			if !ok || as.Tok != token.DEFINE {
+			if !ok || (as.Tok != token.DEFINE && as.Tok != token.ASSIGN) {
 				t.unsupported(s, "if with this init statement")
 			}
 			return t.assign(as, ifPart)
@@ -1871,7 +2158,100 @@ func (t *fnTr) stmts(list []ast.Stmt, end func() string) string {
 		return t.forStmt(x, rest, end)
 	case *ast.ExprStmt:
 		c, ok := x.X.(*ast.CallExpr)
+		if ok {
+			if se, isSel := c.Fun.(*ast.SelectorExpr); isSel && len(c.Args) == 1 {
+				if wl := t.lvarOf(se.X); wl != nil && wl.kind == "writer" {
+					// w.WriteString(s) / w.Write(b) / w.WriteByte(c) for its effect: the bytes are appended
+					mark := len(t.guards)
+					var pv string
+					switch se.Sel.Name {
+					case "WriteString", "Write":
+						pv = t.expr(c.Args[0])
+					case "WriteByte":
+						pv = "[" + t.expr(c.Args[0]) + "]"
+					default:
+						t.unsupported(s, "method of a writer other than Write / WriteString / WriteByte")
+					}
+					return t.wrap(mark, "let "+wl.name+" := (app "+wl.name+" "+pv+") in\n  "+next())
+				}
+			}
+		}
+		if ok {
+			if pk, nm, isPkg := t.pkgCall(c); isPkg && pk == "sort" && nm == "Sort" && len(c.Args) == 1 {
+				// sort.Sort(T(xs)) on a local slice: xs is replaced by its sorted permutation, computed by the Section
+				// variable ext_sort_T (the theorems instantiate it with a sorting function and say what they need of it)
+				conv, isConv := c.Args[0].(*ast.CallExpr)
+				if !isConv || len(conv.Args) != 1 {
+					t.unsupported(s, "sort.Sort of something other than T(xs)")
+				}
+				tv := t.p.info.Types[conv.Fun]
+				xl := t.lvarOf(conv.Args[0])
+				nt, isNamed := tv.Type.(*types.Named)
+				if !tv.IsType() || !isNamed || nt.Obj().Pkg() != t.p.pkg || xl == nil || !xl.ownedMap() {
+					t.unsupported(s, "sort.Sort of something other than T(xs) with xs a local slice and T a type of the package")
+				}
+				name := "ext_sort_" + nt.Obj().Name()
+				typ := fnCoqType(xl.kind) + " -> " + fnCoqType(xl.kind)
+				found := false
+				for _, e := range *t.externs {
+					found = found || e.name == name
+				}
+				if !found {
+					*t.externs = append(*t.externs, extern{name, typ})
+				}
+				return "let " + xl.name + " := (" + name + " " + xl.name + ") in\n  " + next()
+			}
+		}
 		if ok && !t.isSelfCall(c) {
+			// p.M(args) on a struct local p with a pointer-receiver method M of the package and no results: the callee
+			// may assign the fields of *p, so it is a function from the fields (and the arguments) to the new fields
+			if se, isSel := c.Fun.(*ast.SelectorExpr); isSel {
+				if sel, okS := t.p.info.Selections[se]; okS && sel.Kind() == types.MethodVal {
+					if rid, isId := se.X.(*ast.Ident); isId {
+						if rl, okL := t.locals[t.p.info.Uses[rid]]; okL && rl.fields != nil && strings.HasPrefix(rl.kind, "rec:") {
+							fn, _ := sel.Obj().(*types.Func)
+							sig := fn.Type().(*types.Signature)
+							if fn.Pkg() != t.p.pkg || sig.Results().Len() != 0 || sig.Variadic() || len(c.Args) != sig.Params().Len() {
+								t.unsupported(s, "method call on a struct local other than a result-less method of the package")
+							}
+							if _, isPtr := sig.Recv().Type().(*types.Pointer); !isPtr {
+								t.unsupported(s, "value-receiver method called for its effect")
+							}
+							mark := len(t.guards)
+							var tys, args []string
+							var flds []*lvar
+							for _, fnm := range rl.forder {
+								fl := rl.fields[fnm]
+								flds = append(flds, fl)
+								tys = append(tys, fnCoqType(fl.kind))
+								args = append(args, fl.name)
+							}
+							for i, a := range c.Args {
+								k := t.kindOfType(sig.Params().At(i).Type())
+								if k == "" || k == "tok" || strings.HasPrefix(k, "ptr:") || k == "reader" || k == "writer" {
+									t.unsupported(s, "argument of a method call on a struct local")
+								}
+								tys = append(tys, fnCoqType(k))
+								if k == "val" {
+									args = append(args, t.boxVal(a))
+								} else {
+									args = append(args, t.expr(a))
+								}
+							}
+							name := "ext_" + strings.TrimPrefix(rl.kind, "rec:") + "_" + fn.Name()
+							typ := strings.Join(append(tys, tupleType(flds)), " -> ")
+							found := false
+							for _, e := range *t.externs {
+								found = found || e.name == name
+							}
+							if !found {
+								*t.externs = append(*t.externs, extern{name, typ})
+							}
+							return t.wrap(mark, "let "+tuplePat(flds)+" := ("+name+" "+strings.Join(args, " ")+") in\n  "+next())
+						}
+					}
+				}
+			}
 			mark := len(t.guards)
 			if ec, isExt := t.externCall(c); isExt {
 				if len(ec.results) != 0 || len(ec.outArgs) == 0 {
@@ -1912,13 +2292,9 @@ func (t *fnTr) stmts(list []ast.Stmt, end func() string) string {
 func (t *fnTr) assign(x *ast.AssignStmt, next func() string) string {
 	define := x.Tok == token.DEFINE
 	if x.Tok == token.ADD_ASSIGN && len(x.Lhs) == 1 && len(x.Rhs) == 1 {
-		// x += e  on a string / int local
-		id, ok := x.Lhs[0].(*ast.Ident)
-		if !ok {
-			t.unsupported(x, "+= target")
-		}
-		lv, ok := t.locals[t.p.info.Uses[id]]
-		if !ok || (lv.kind != "str" && lv.kind != "int") {
+		// x += e  on a string / int local or field of a struct local
+		lv := t.lvarOf(x.Lhs[0])
+		if lv == nil || lv.fields != nil || (lv.kind != "str" && lv.kind != "int") {
 			t.unsupported(x, "+= target")
 		}
 		mark := len(t.guards)
@@ -2036,14 +2412,14 @@ func (t *fnTr) assign(x *ast.AssignStmt, next func() string) string {
 			if t.pairResult() {
 				rp := "'(" + va + ", " + vb + ")"
 				if len(t.state) > 0 {
-					rp = "'((" + va + ", " + vb + "), " + tupleVal(t.state) + ")"
+					rp = "'((" + va + ", " + vb + "), " + t.retState() + ")"
 				}
 				return t.wrap(mark, "bindr ("+fnPrefix+t.self.Name()+" fuel_ st "+strings.Join(args, " ")+")\n  (fun "+rp+" =>\n  "+next()+")")
 			}
 			z := fnZero(t.resKind[0])
 			rpat := "rr_"
 			if len(t.state) > 0 {
-				rpat = "'(rr_, " + tupleVal(t.state) + ")"
+				rpat = "'(rr_, " + t.retState() + ")"
 			}
 			return t.wrap(mark, "bindr ("+fnPrefix+t.self.Name()+" fuel_ st "+strings.Join(args, " ")+")\n  (fun "+rpat+" => match rr_ with Panic => Crash | _ => let '("+va+", "+vb+") := match rr_ with Ok v => (v, None) | Err e => ("+z+", Some e) | Panic => ("+z+", None) end in\n  "+next()+" end)")
 		}
@@ -2072,7 +2448,7 @@ func (t *fnTr) assign(x *ast.AssignStmt, next func() string) string {
 				return t.wrap(mark, "let '("+va+", "+vb+") := match "+rr+" with Ok v => (v, None) | Err e => ("+fnZero(ec.results[0])+", Some e) | Panic => ("+fnZero(ec.results[0])+", None) end in\n  "+next())
 			}
 		}
-		if !define {
+		if _, isCallR := x.Rhs[0].(*ast.CallExpr); !define && isCallR {
 			t.unsupported(x, "two-value assignment form")
 		}
 		switch r := x.Rhs[0].(type) {
@@ -2107,8 +2483,56 @@ func (t *fnTr) assign(x *ast.AssignStmt, next func() string) string {
 		}
 		t.unsupported(x, "two-value assignment form")
 	}
+	if len(x.Lhs) == len(x.Rhs) && len(x.Lhs) > 1 && !define {
+		// a, b = e1, e2 on plain locals: all right-hand sides are evaluated first
+		mark := len(t.guards)
+		var names, vals []string
+		for i, lh := range x.Lhs {
+			lv := t.lvarOf(lh)
+			if _, isId := lh.(*ast.Ident); !isId || lv == nil || lv.fields != nil || lv.elemOf != nil || lv.nilFlag != nil {
+				t.unsupported(x, "parallel assignment to something other than plain locals")
+			}
+			names = append(names, lv.name)
+			if lv.kind == "val" {
+				vals = append(vals, t.boxVal(x.Rhs[i]))
+			} else {
+				vals = append(vals, t.expr(x.Rhs[i]))
+			}
+		}
+		return t.wrap(mark, "let '("+strings.Join(names, ", ")+") := ("+strings.Join(vals, ", ")+") in\n  "+next())
+	}
 	if len(x.Lhs) != 1 || len(x.Rhs) != 1 {
 		t.unsupported(x, "assignment form")
+	}
+	if c, isCall := x.Rhs[0].(*ast.CallExpr); isCall && t.isSelfCall(c) && len(t.resKind) == 1 {
+		// v := self(...) for a recursive function with one result (typically `err`): the result and the state come back
+		lid, isId := x.Lhs[0].(*ast.Ident)
+		if !isId {
+			t.unsupported(x, "recursive call assigned to something other than a variable")
+		}
+		k := t.resKind[0]
+		if k == "err" {
+			k = "errv"
+		}
+		mark := len(t.guards)
+		args := t.selfArgs(c)
+		var vn string
+		if lid.Name == "_" {
+			vn = "_"
+		} else if define {
+			vn = t.newLocal(t.p.info.Defs[lid], lid.Name, k).name
+		} else {
+			lv, ok := t.locals[t.p.info.Uses[lid]]
+			if !ok || lv.kind != k {
+				t.unsupported(x, "recursive call assigned to a variable of another type")
+			}
+			vn = lv.name
+		}
+		rp := vn
+		if len(t.state) > 0 {
+			rp = "'(" + vn + ", " + t.retState() + ")"
+		}
+		return t.wrap(mark, "bindr ("+fnPrefix+t.self.Name()+" fuel_ st "+strings.Join(args, " ")+")\n  (fun "+rp+" =>\n  "+next()+")")
 	}
 	switch l := x.Lhs[0].(type) {
 	case *ast.Ident:
@@ -2145,6 +2569,47 @@ func (t *fnTr) assign(x *ast.AssignStmt, next func() string) string {
 					lv.fields["Name"], lv.fields["Attr"] = fn, fa
 					lv.forder = []string{"Name", "Attr"}
 					return "(match " + tl.name + " with Some (TStart " + fn.name + " " + fa.name + ") =>\n  " + next() + "\n  | _ => Crash end)"
+				}
+			}
+		}
+		// struct local: p := &T{e1, ..., en} (all fields, positional or keyed): one local per field
+		if define {
+			if u, ok := x.Rhs[0].(*ast.UnaryExpr); ok && u.Op == token.AND {
+				if cl, ok := u.X.(*ast.CompositeLit); ok {
+					k := t.kindOfType(obj.Type())
+					var st *types.Struct
+					if pt, ok := obj.Type().(*types.Pointer); ok {
+						st, _ = pt.Elem().Underlying().(*types.Struct)
+					}
+					if !strings.HasPrefix(k, "rec:") || st == nil || len(cl.Elts) != st.NumFields() {
+						t.unsupported(x, "&T{...} other than a package struct with all its fields given")
+					}
+					lv := &lvar{name: "l_" + l.Name, kind: k, fields: map[string]*lvar{}}
+					out := ""
+					mark := len(t.guards)
+					for i := 0; i < st.NumFields(); i++ {
+						f := st.Field(i)
+						fk := t.kindOfType(f.Type())
+						if fk != "str" && fk != "int" && fk != "bool" && fk != "val" {
+							t.unsupported(x, "&T{...} with a field of this type")
+						}
+						var el ast.Expr = cl.Elts[i]
+						if kv, isKV := el.(*ast.KeyValueExpr); isKV {
+							t.unsupported(kv, "keyed &T{...}")
+						}
+						var v string
+						if fk == "val" {
+							v = t.boxVal(el)
+						} else {
+							v = t.expr(el)
+						}
+						fl := t.newLocal(nil, l.Name+"_"+f.Name(), fk)
+						lv.fields[f.Name()] = fl
+						lv.forder = append(lv.forder, f.Name())
+						out += "let " + fl.name + " : " + fnCoqType(fk) + " := " + v + " in "
+					}
+					t.locals[obj] = lv
+					return t.wrap(mark, out+"\n  "+next())
 				}
 			}
 		}
@@ -2265,7 +2730,7 @@ func (t *fnTr) assign(x *ast.AssignStmt, next func() string) string {
 			v := t.expr(x.Rhs[0])
 			return t.wrap(mark, "let "+lv.name+" := bset "+k+" "+v+" "+lv.name+" in\n  "+next())
 		}
-		if ok && (lv.kind == "strs" || lv.kind == "vlist") && lv.ownedMap() && !t.sliceShared(t.p.info.Uses[id]) {
+		if ok && (lv.kind == "strs" || lv.kind == "vlist" || strings.HasPrefix(lv.kind, "recs:")) && lv.ownedMap() && !t.sliceShared(t.p.info.Uses[id]) {
 			// xs[i] = v on a slice made by this function and not copied to another variable: Go panics unless 0 <= i < len(xs)
 			mark := len(t.guards)
 			ix := t.expr(l.Index)
@@ -2316,7 +2781,16 @@ func (t *fnTr) sliceShared(obj types.Object) bool {
 				}
 			case *ast.CallExpr:
 				f, isId := par.Fun.(*ast.Ident)
-				if !isId || f.Name != "len" {
+				okUse := isId && f.Name == "len"
+				// sort.Sort(T(obj)): the slice is permuted in place (translated as obj := sort_T obj)
+				if tv, isConv := t.p.info.Types[par.Fun]; isConv && tv.IsType() && len(stack) >= 2 {
+					if outer, isCall := stack[len(stack)-2].(*ast.CallExpr); isCall {
+						if pk, nm, isPkg := t.pkgCall(outer); isPkg && pk == "sort" && nm == "Sort" {
+							okUse = true
+						}
+					}
+				}
+				if !okUse {
 					shared = true
 				}
 			case *ast.RangeStmt:
@@ -2723,6 +3197,7 @@ func (t *fnTr) typeSwitch(x *ast.TypeSwitchStmt, rest []ast.Stmt, end func() str
 			}
 		}
 		catchAll := false
+		var dropped []string
 		for _, c := range x.Body.List {
 			cc := c.(*ast.CaseClause)
 			if cc.List == nil {
@@ -2757,7 +3232,14 @@ func (t *fnTr) typeSwitch(x *ast.TypeSwitchStmt, rest []ast.Stmt, end func() str
 						catchAll = true
 						continue
 					}
-					pat, _ = t.assertPat(t.p.info.Types[te].Type, "_")
+					if t.p.info.Types[te].IsNil() {
+						pat = "VNil"
+					} else if outsideUniverse(t.p.info.Types[te].Type) {
+						dropped = append(dropped, types.ExprString(te))
+						continue
+					} else {
+						pat, _ = t.assertPat(t.p.info.Types[te].Type, "_")
+					}
 				}
 				if pat == "" {
 					t.unsupported(te, "type switch case of this type")
@@ -2772,6 +3254,9 @@ func (t *fnTr) typeSwitch(x *ast.TypeSwitchStmt, rest []ast.Stmt, end func() str
 			sb.WriteString("\n  | _ => " + tr(def))
 		}
 		sb.WriteString("\n  end")
+		if len(dropped) > 0 {
+			sb.WriteString(" (* alternatives outside the value universe dropped: " + strings.Join(dropped, ", ") + " *)")
+		}
 		return t.wrap(mark, sb.String())
 	})
 }
@@ -2789,7 +3274,10 @@ func (t *fnTr) loop(s ast.Stmt, body *ast.BlockStmt, xs string, bindVars func() 
 	for k, v := range t.escaped {
 		saved[k] = v
 	}
+	savedS := t.curS
+	t.curS = tupleType(as)
 	b := t.stmts(body.List, t.loopEnd)
+	t.curS = savedS
 	t.escaped = saved
 	t.inLoop, t.loopEnd, t.breakEnd = savedIn, savedEnd, savedBreak // what follows the loop belongs to the enclosing loop again
 	st := tupleType(as)
@@ -2908,6 +3396,11 @@ func (t *fnTr) rangeStmt(x *ast.RangeStmt, rest []ast.Stmt, end func() string) s
 		// the entries in list order, which stands for the (arbitrary) hash-iteration order of the run
 		out = t.loop(x, x.Body, xs, func() string { return "'(" + name(x.Key, "str") + ", " + name(x.Value, "bool") + ")" }, "(str * bool)", rest, end)
 	default:
+		if strings.HasPrefix(k, "recs:") && t.structs[k[5:]] != nil {
+			// a slice of package structs: the element is a record (read through its projections)
+			out = withIndex("rec:"+k[5:], "t_"+k[5:])
+			break
+		}
 		t.unsupported(x, "range over this type")
 	}
 	return t.wrap(mark, out)
@@ -2950,7 +3443,10 @@ func (t *fnTr) forStmt(x *ast.ForStmt, rest []ast.Stmt, end func() string) strin
 		t.inLoop = true
 		t.loopEnd = func() string { return "Next " + tupleVal(as) }
 		t.breakEnd = func() string { return "Brk " + tupleVal(as) }
+		savedS := t.curS
+		t.curS = tupleType(as)
 		b := t.stmts(x.Body.List, t.loopEnd)
+		t.curS = savedS
 		t.inLoop, t.loopEnd, t.breakEnd = savedIn, savedEnd, savedBreak
 		st := tupleType(as)
 		fuelOf := "(length " + rl.name + ")"
@@ -3120,7 +3616,10 @@ func (t *fnTr) countingFor(x *ast.ForStmt, init *ast.AssignStmt, cond *ast.Binar
 	for k, v := range t.escaped {
 		saved[k] = v
 	}
+	savedS := t.curS
+	t.curS = tupleType(st)
 	body := t.stmts(x.Body.List, t.loopEnd)
+	t.curS = savedS
 	t.escaped = saved
 	t.inLoop, t.loopEnd, t.breakEnd = savedIn, savedEnd, savedBreak
 	sty := tupleType(st)
@@ -3165,7 +3664,12 @@ func constTable(p *pkgInfo, vs *ast.ValueSpec, i int) (string, bool) {
 
 // the functions translated into Pure_gen.v ("Recv.Method" for methods)
 var pureFuncs = []string{"cast", "escapeChars", "parsePath", "getSubKeyMap", "hasSubKeys", "Map.PathForKeyShortest", "valuesForKeyPath", "hasKey", "hasKeyPath", "getLeafNodes",
-	"Map.ValuesForKey", "Map.oldValuesForPath", "Map.ValuesForPath", "Map.LeafNodes", "getJson", "NewMapJsonReader", "NewMapJsonReaderRaw", "Map.Exists", "Map.ValueForPath", "Map.ValueForKey", "Map.LeafPaths", "Map.LeafValues", "valuesForArray", "Map.PathsForKey", "byteReader.ReadByte", "teeReader.ReadByte", "Maps.JsonString", "Maps.JsonStringIndent", "Maps.XmlString", "Maps.XmlStringIndent", "BeautifyXml", "Map.Copy", "Map.Json", "Map.Root", "NewMapXml", "NewMapXmlSeq", "lastKey", "xmlToMapParser", "xmlSeqToMapParser", "Map.JsonWriter", "Map.JsonWriterRaw", "Map.JsonIndentWriter", "Map.JsonIndentWriterRaw", "Map.XmlWriter", "Map.XmlIndentWriter", "MapSeq.XmlWriter", "MapSeq.XmlIndentWriter"}
+	"Map.ValuesForKey", "Map.oldValuesForPath", "Map.ValuesForPath", "Map.LeafNodes", "getJson", "NewMapJsonReader", "NewMapJsonReaderRaw", "Map.Exists", "Map.ValueForPath", "Map.ValueForKey", "Map.LeafPaths", "Map.LeafValues", "valuesForArray", "Map.PathsForKey", "byteReader.ReadByte", "teeReader.ReadByte", "Maps.JsonString", "Maps.JsonStringIndent", "Maps.XmlString", "Maps.XmlStringIndent", "BeautifyXml", "Map.Copy", "Map.Json", "Map.Root", "NewMapXml", "NewMapXmlSeq", "lastKey", "xmlToMapParser", "xmlSeqToMapParser", "Map.JsonWriter", "Map.JsonWriterRaw", "Map.JsonIndentWriter", "Map.JsonIndentWriterRaw", "Map.XmlWriter", "Map.XmlIndentWriter", "MapSeq.XmlWriter", "MapSeq.XmlIndentWriter", "mapToXmlSeqIndent", "pretty.Indent", "pretty.Outdent", "elemListSeq.Less"}
+
+// joinMode: functions translated in join mode (see branching): the statements after an if / switch are translated
+// once instead of into every branch.  The continuation-passing translation of the other functions is kept as it is
+// (their proofs are about that shape).
+var joinMode = map[string]bool{"mapToXmlSeqIndent": true, "marshalMapToXmlIndent": true}
 
 // fnPrefix: the prefix of the Gallina names of translated functions ("fn_" for package mxj, "xfn_" for x2j-wrapper)
 var fnPrefix = "fn_"
@@ -3306,6 +3810,7 @@ func genPure(p *pkgInfo) string {
 			}
 			t := &fnTr{p: p, vars: byObj, fn: fn, locals: map[types.Object]*lvar{}, used: map[string]int{}, tables: tables,
 				externs: &externs, structs: structs, escaped: map[types.Object]bool{}}
+			t.sumJoin, t.curS = joinMode[qname], "unit"
 			params := ""
 			t.stateAt = map[int]*lvar{}
 			if fobj, ok := p.info.Defs[fn.Name].(*types.Func); ok {
@@ -3344,7 +3849,7 @@ func genPure(p *pkgInfo) string {
 					for i := 0; i < st.NumFields(); i++ {
 						f := st.Field(i)
 						fk := t.kindOfType(f.Type())
-						if fk != "reader" && fk != "writer" && fk != "str" {
+						if fk != "reader" && fk != "writer" && fk != "str" && fk != "int" && fk != "bool" {
 							t.unsupported(id, "parameter type "+obj.Type().String()+" (field "+f.Name()+")")
 						}
 						fl := &lvar{name: "p_" + id.Name + "_" + f.Name(), kind: fk, isState: true}
@@ -3356,6 +3861,10 @@ func genPure(p *pkgInfo) string {
 					}
 					t.locals[obj] = lv
 					if !isRecv {
+						if t.structAt == nil {
+							t.structAt = map[int]*lvar{}
+						}
+						t.structAt[pos] = lv
 						pos++
 					}
 					return
